@@ -172,13 +172,22 @@ def work_flags(chunk):
         if cls != 'Hessian':
             kw['order'] = order
         recs = {}
-        for name, flag in (('True', True), ('1', 1), ('numpy.True_', np.True_)):
+        for name, flag in (('True', True), ('1', 1), ('numpy.True_', np.True_), ('assigned-after-construction', None),
+                           ('assigned-after-a-plain-call', None)):
             fw.fresh_library_state()
             try:
                 with warnings.catch_warnings():
                     warnings.simplefilter('ignore')
                     with np.errstate(all='ignore'):
-                        val, info = getattr(nd, cls)(f, full_output=flag, **kw)(x)
+                        if flag is None:
+                            # `full_output` is a plain public attribute: built with the default (False), switched on later
+                            obj = getattr(nd, cls)(f, **kw)
+                            if name == 'assigned-after-a-plain-call':
+                                obj(x)
+                            obj.full_output = True
+                            val, info = obj(x)
+                        else:
+                            val, info = getattr(nd, cls)(f, full_output=flag, **kw)(x)
                 recs[name] = fw.obs((val, info.f_value, info.error_estimate, info.final_step, info.index))
                 fval = np.asarray(info.f_value)
             except Exception as e:      # noqa: BLE001
